@@ -206,6 +206,68 @@ class SymSeq(SProto):
             return SymSeq("numpy.ndarray", n, z3.Lambda([i], _arith(op, a, b)))
         return NotImplemented
 
+    def py_array_compare(self, I, op, other, reflected):
+        """ndarray OP other for a comparison operator: a boolean ndarray (elements 1.0 / 0.0), numpy
+        broadcasting of 1-d operands (equal lengths or length 1; anything else raises ValueError, numpy >= 1.25)"""
+        if self.kind != "numpy.ndarray":
+            return NotImplemented
+        if self.extended is not None:
+            raise OutOfSubset("comparison of an ndarray with non-finite elements")
+        flip = {ast.Lt: ast.Gt, ast.Gt: ast.Lt, ast.LtE: ast.GtE, ast.GtE: ast.LtE}
+        opt = type(op)
+        if reflected and opt in flip:
+            opt = flip[opt]
+
+        def cmp(x, y):
+            c = {ast.Eq: x == y, ast.NotEq: x != y, ast.Lt: x < y, ast.LtE: x <= y, ast.Gt: x > y, ast.GtE: x >= y}[opt]
+            return z3.If(c, z3.RealVal(1), z3.RealVal(0))
+
+        i = z3.Int("i!cmp%d" % (_tok[0] + 1))
+        if isinstance(other, SBool):
+            other = I.bool_to_num(other)
+        if isinstance(other, SNum):
+            if other.extended:
+                raise OutOfSubset("ndarray compared with a non-finite number")
+            return SymSeq("numpy.ndarray", self.n, z3.Lambda([i], cmp(z3.Select(self.elems, i), other.real())))
+        if isinstance(other, SymSeq) and other.kind in ("numpy.ndarray", "list", "tuple"):
+            if other.extended is not None:
+                raise OutOfSubset("comparison of an ndarray with non-finite elements")
+            if I.P.branch(self.n == other.n):
+                a, b, n = z3.Select(self.elems, i), z3.Select(other.elems, i), self.n
+            elif I.P.branch(other.n == 1):
+                a, b, n = z3.Select(self.elems, i), z3.Select(other.elems, 0), self.n
+            elif I.P.branch(self.n == 1):
+                a, b, n = z3.Select(self.elems, 0), z3.Select(other.elems, i), other.n
+            else:
+                I.raise_("ValueError", "operands could not be broadcast together")
+            return SymSeq("numpy.ndarray", n, z3.Lambda([i], cmp(a, b)))
+        if other is SNone or isinstance(other, SStr):
+            if opt in (ast.Eq, ast.NotEq):
+                # numpy compares elementwise against the object: nothing equals None / a string
+                val = z3.RealVal(0) if opt is ast.Eq else z3.RealVal(1)
+                return SymSeq("numpy.ndarray", self.n, z3.K(IntS, val))
+            I.raise_("TypeError", "'<' not supported between ndarray and this object")
+        raise OutOfSubset("ndarray compared with %r" % (other,))
+
+    def py_ibinop(self, I, op, other):
+        """x OP= other: numpy arrays and lists are updated in place (the caller's object changes: a logged
+        write); tuples are immutable and take the ordinary binary operation"""
+        if self.kind == "numpy.ndarray":
+            r = self.py_binop(I, op, other, False)
+            if r is NotImplemented or not isinstance(r, SymSeq):
+                return r
+            I.P.log_write(self, ("item", "inplace-op"))
+            self.elems, self.n = r.elems, r.n
+            return self
+        if self.kind == "list" and isinstance(op, ast.Add):
+            r = self.concat(I, other, False)
+            if r is NotImplemented:
+                return r
+            I.P.log_write(self, ("item", "inplace-extend"))
+            self.elems, self.n = r.elems, r.n
+            return self
+        return NotImplemented
+
     def py_iter(self, I):
         raise OutOfSubset("iteration over a sequence of unknown length without a loop rule")
 
@@ -215,6 +277,12 @@ class SymSeq(SProto):
     def py_getattr(self, I, name):
         if name == "__class__":
             return SType(self.kind)
+        if self.kind == "numpy.ndarray" and name in ("all", "any"):
+            j = z3.Int("j!%s%d" % (name, _tok[0] + 1))
+            inside = z3.And(j >= 0, j < self.n)
+            nz = z3.Select(self.elems, j) != 0
+            t = z3.ForAll([j], z3.Implies(inside, nz)) if name == "all" else z3.Exists([j], z3.And(inside, nz))
+            return SBuiltin("ndarray." + name, lambda I_, a, k: SBool(t))
         raise OutOfSubset("%s.%s on a symbolic sequence" % (self.kind, name))
 
     def py_copy(self, I, deep):
